@@ -629,6 +629,11 @@ func (x *fx) evalCall(e *Expr, env *specEnv) *Val {
 				m = p.M
 			}
 			return x.load(m, p)
+		case "startsAt":
+			// startsAt(s, t, i): slice s begins at element i of slice t (same storage)
+			a, b := x.eval(args[0], env), x.eval(args[1], env)
+			i := x.toIdx(x.typed(x.eval(args[2], env), tInt))
+			return &Val{T: tBool, S: x.and("(= "+slBase(a.S)+" "+slBase(b.S)+")", "(= "+slOff(a.S)+" "+x.iadd(slOff(b.S), i)+")")}
 		case "disjoint":
 			a, b := x.eval(args[0], env), x.eval(args[1], env)
 			return &Val{T: tBool, S: "(not (= " + x.refOf(a) + " " + x.refOf(b) + "))"}
@@ -685,6 +690,23 @@ func (x *fx) evalCall(e *Expr, env *specEnv) *Val {
 				if imp.Name() == id.Name {
 					if fo, ok := imp.Scope().Lookup(f.Name).(*types.Func); ok && (x.c.Pure[f.Name] || x.c.Pure[id.Name+"."+f.Name]) {
 						return x.pureGoFunc(fo, args, env)
+					}
+					if tn, ok := imp.Scope().Lookup(f.Name).(*types.TypeName); ok && len(args) == 1 {
+						// conversion to a type of another package: format.Type(x)
+						v := x.eval(args[0], env)
+						t := tn.Type()
+						if isUntyped(v.T) {
+							return x.typed(v, t)
+						}
+						_, fi := isInt(v.T)
+						_, ti := isInt(t)
+						if fi && ti {
+							return &Val{T: t, S: x.convertInt(v.S, v.T, t)}
+						}
+						if x.sortOf(v.T) == x.sortOf(t) {
+							return &Val{T: t, S: v.S}
+						}
+						panic(specErr("conversion " + id.Name + "." + f.Name + " of " + v.T.String()))
 					}
 					panic(specErr("function " + id.Name + "." + f.Name + " is not declared pure in this contract"))
 				}
